@@ -1082,3 +1082,54 @@ Proof. vm_compute. repeat split. Qed.
 
 Example ex_ops_lens : ops_lens_nonneg ex_ops = true.
 Proof. vm_compute. reflexivity. Qed.
+
+(* ---- round 5: the decisions taken INSIDE a history.  total_capacity never changes ... ---- *)
+Lemma step_total d o : dv_total (fst (step_with find_place d o)) = dv_total d.
+Proof.
+  destruct o as [name segs force|name|name| |]; cbn [step_with].
+  - rewrite upload_with_unfold.
+    destruct (existsb _ (dv_known d)).
+    + destruct force; [|reflexivity].
+      destruct (free_program_caps d name) as [_ Et1].
+      destruct (free_program d name) as [d1 [e|]]; cbn [fst] in *; [exact Et1|].
+      rewrite upload_core_total. exact Et1.
+    + apply upload_core_total.
+  - apply free_program_caps.
+  - destruct (free_program_caps d name) as [_ Et1].
+    destruct (free_program d name) as [d1 [e|]]; cbn [fst] in *; exact Et1.
+  - reflexivity.
+  - reflexivity.
+Qed.
+
+Lemma run_total ops : forall d, dv_total (run d ops) = dv_total d.
+Proof.
+  induction ops as [|o ops IH]; intros d; [reflexivity|].
+  unfold run in *. cbn [run_with]. rewrite IH. apply step_total.
+Qed.
+
+Definition mem_of (d : driver) : memory :=
+  {| m_hashes := dv_hashes d; m_refs := dv_refs d; m_caps := dv_caps d; m_total := dv_total d |}.
+
+(* ... and whatever the placement decides on the arrays of a reachable driver state satisfies the four clauses with
+   respect to THOSE arrays and the instrument's total capacity.  upload() calls the placement on `mem_of d1`, d1 = the
+   state before the call (after free_program for a forced re-upload, which is itself a reachable state: ops ++ [OFree]). *)
+Theorem history_decisions total ops nh nl dec :
+  let d := run (clear total) ops in
+  dv_total d = total /\
+  (find_place (mem_of d) nh nl = Ok dec -> decision_ok (mem_of d) nh nl dec).
+Proof.
+  intros d. split; [unfold d; rewrite run_total; reflexivity|].
+  apply find_place_decision_ok. cbn [mem_of m_refs].
+  destruct (history_bookkeeping total ops) as (_ & _ & H & _). exact H.
+Qed.
+
+(* upload() without a known name IS the placement on mem_of d followed by the bookkeeping *)
+Lemma upload_calls_place_on_state d name segs :
+  existsb (fun p => Nat.eqb (pg_name p) name) (dv_known d) = false ->
+  forall e, find_place (mem_of d) (map fst segs) (map snd segs) = Err e ->
+  upload d name segs false = (d, Some (Refused e)).
+Proof.
+  intros Hn e He. unfold upload. rewrite upload_with_unfold. rewrite Hn. unfold upload_core.
+  change {| m_hashes := dv_hashes d; m_refs := dv_refs d; m_caps := dv_caps d; m_total := dv_total d |} with (mem_of d).
+  rewrite He. reflexivity.
+Qed.
